@@ -226,15 +226,15 @@ func dictBytes(rt *rapid.T, d *dict, max int, label string) []byte {
 func subTLVs(rt *rapid.T, p *bld, d *dict, tw, lw int, lenIncl bool, label string) {
 	n := uni(rt, 5, label+"N")
 	hostile := -1
-	if n > 0 && uni(rt, 3, label+"Hostile") == 0 {
+	if n > 0 && uni(rt, 2, label+"Hostile") == 0 {
 		hostile = uni(rt, n, label+"HostileAt")
 	}
 	for i := 0; i < n; i++ {
-		t := dictInt(rt, d, 8*tw, label+"Type")
-		if tw == 1 {
-			p.u8(int(t))
-		} else {
-			p.u16(int(t))
+		switch tw { // tw == 0: a list of length-prefixed opaque items
+		case 1:
+			p.u8(int(dictInt(rt, d, 8, label+"Type")))
+		case 2:
+			p.u16(int(dictInt(rt, d, 16, label+"Type")))
 		}
 		var li int
 		if lw == 1 {
